@@ -1,14 +1,43 @@
 /-
   C13 — parse errors identify the offending token and stay inside the source.
-  INTERIM file.  Proved here about the model of the primitives (after the
-  `fix:` commits): a failing `one` reports the consumed offending token with
-  the span of exactly that token and the parse span taken *before* the advance;
-  `any` / `any_index` / `end_of_text`, which fail after a lookahead, report the
-  looked-ahead token's span.  The interpreter-wide theorem (every error span is
-  a lexer position pair; C03 makes those canonical) is in progress; the `errors`
-  family + oracle (run on every grammar-level case) carries the statement.
+
+  Proved here about the model of the combinators (after the `fix:` commits):
+
+  * `C13_one_reports_offender`, `C13_any_reports_lookahead` (shape of the error
+    of a failing `one` / `any`).
+  * `C13_spans_from_lexer` — first clause, interpreter-wide, every grammar:
+    let `P` be a property of positions closed under the scanner at the lexer's
+    metrics.  If every position stored in the incoming lexer satisfies `P` and
+    every error already in the sink log has all its spans / positions in `P`,
+    then after `run` (any fuel, grammar, context, world): a successful result
+    hands back a lexer whose stored positions satisfy `P` and a value all of
+    whose captured spans (`spanned`, at any depth) have both endpoints in `P`;
+    a returned error has every span and position field in `P`; and so has every
+    error in the sink log afterwards.  With `P` = "canonical position of the
+    text" (which the scanner preserves, C03) this is: every span in every
+    returned or reported error and every captured span lies in the source, on
+    character boundaries, with the right line/column.  Nothing is assumed of the
+    scanner beyond closure; unbounded in everything.
+  * `C13_enclosing_start_le_end`, `C13_start_le_end` — `Span::enclosing` never
+    builds a reversed span, and every span field of every error `run` returns
+    or logs (and every captured span) has start ≤ end, for every grammar, with
+    no hypothesis on the scanner at all.
+  * `C13_one_unexpected` … `C13_leaf_unexpected` — unexpected-token clauses for
+    the primitive leaves `one`, `any`, `any_index`, `seq`, `pred`,
+    `end_of_text`, for a lexer related (`PegRefine.Abs`: scanner contract
+    `ScanOK`, harness filter table) to a state `s` of the reference evaluator:
+    if the leaf fails with `UnexpectedToken { es, ts, exp, found }` then `es`
+    is the parse span before the call; `found = Token t` implies `t` is the
+    first kept token the leaf could not accept (`s.pop`; for `seq ks` the first
+    kept token after the matching prefix, `(seqStop ks s).2.pop`), it really is
+    unacceptable (kind ≠ k / not in ks / predicate false), `ts` is exactly that
+    token's span and `es` ends at or before its start; `found = EndOfText`
+    implies no kept token remains.  (`end_of_text` never reports
+    `found = EndOfText`: a stream that stops early is `UnrecognizedToken`.)
 -/
 import TephraModel.Run
+import TephraProofs.RunSpans
+import TephraProofs.LeafUnexpected
 
 namespace Tephra.Props
 open Tephra
@@ -25,5 +54,151 @@ theorem C13_any_reports_lookahead (R : RunEnv) (n : Nat) (ks : List Nat) (lx lx'
     run R (n + 1) (.any ks) lx ctx W =
       (.err ⟨[], .unexp lx.parseSpan (lx'.peekTokenSpan.getD lx'.tokenSpan) (.tokens ks) (.token t)⟩, W) := by
   simp [run, hne, h, hk, mkErr]
+
+/-! ### first clause: every span comes from the lexer -/
+
+/-- Every span / position of every returned or logged error, every captured
+span and every position of the lexer handed back satisfies `P`. -/
+theorem C13_spans_from_lexer (R : RunEnv) (P : Pos → Prop) (n : Nat) (g : G) (lx : Lx) (ctx : Ctx) (W : World)
+    (hc : Closed R.E P lx.metrics) (hp : PosOK P lx) (hW : ∀ e ∈ W.log, ErrP P e.body) :
+    (∀ v lx', (run R n g lx ctx W).1 = .ok v lx' → PosOK P lx' ∧ ValP P v) ∧
+    (∀ e, (run R n g lx ctx W).1 = .err e → ErrP P e.body) ∧
+    (∀ e ∈ (run R n g lx ctx W).2.log, ErrP P e.body) :=
+  RunSpans.run_spans R P n g lx ctx W hc hp hW
+
+/-- The same from a fresh lexer and an empty world (this is where `P Pos.zero` is used). -/
+theorem C13_spans_from_new (R : RunEnv) (P : Pos → Prop) (h0 : P Pos.zero) (s0 : Nat) (m : Metrics) (len : Nat)
+    (hc : Closed R.E P m) (n : Nat) (g : G) (ctx : Ctx) :
+    (∀ v lx', (run R n g (Lexer.new s0 m len) ctx World.init).1 = .ok v lx' → PosOK P lx' ∧ ValP P v) ∧
+    (∀ e, (run R n g (Lexer.new s0 m len) ctx World.init).1 = .err e → ErrP P e.body) ∧
+    (∀ e ∈ (run R n g (Lexer.new s0 m len) ctx World.init).2.log, ErrP P e.body) :=
+  RunSpans.run_spans R P n g _ ctx _ hc (LexInv.new_pos h0 s0 m len) (by simp [World.init])
+
+theorem C13_enclosing_start_le_end (a b : Pos) : (Span.enclosing a b).s.byte ≤ (Span.enclosing a b).e.byte :=
+  RunSpans.enclosing_le a b
+
+/-- Every span of every returned or logged error and every captured span has start ≤ end. -/
+theorem C13_start_le_end (R : RunEnv) (n : Nat) (g : G) (lx : Lx) (ctx : Ctx) (W : World)
+    (hW : ∀ e ∈ W.log, ErrWF e.body) :
+    (∀ v lx', (run R n g lx ctx W).1 = .ok v lx' → ValWF v) ∧
+    (∀ e, (run R n g lx ctx W).1 = .err e → ErrWF e.body) ∧
+    (∀ e ∈ (run R n g lx ctx W).2.log, ErrWF e.body) :=
+  RunSpans.run_wf R n g lx ctx W hW
+
+/-! ### unexpected-token clauses of the leaves -/
+
+open Tephra.Spec PegRefine LeafErr
+
+/-- `LeafErr.Unexp lx s1 es ts found` unfolded (so that the statements below can be read here). -/
+theorem C13_Unexp_iff (lx : Lx) (s1 : PState) (es ts : Span) (found : Found) :
+    Unexp lx s1 es ts found ↔
+      (es = lx.parseSpan ∧
+       (∀ t, found = .token t → ∃ r s', s1.pop = some (r, s') ∧ r.tok = t ∧ ts = ⟨r.start, r.stop⟩ ∧
+          es.e.byte ≤ ts.s.byte) ∧
+       (found = .eot → s1.pop = none)) := Iff.rfl
+
+variable {R : RunEnv} {m : Metrics} {len : Nat}
+
+theorem C13_one_unexpected (ok : ScanOK R.E m len) (hp : PassOK R.E) {lx : Lx} {s : PState}
+    (a : Abs R.E m len lx s) (n k : Nat) (ctx : Ctx) (W : World) {es ts : Span} {exp : Expected} {found : Found}
+    (h : (run R (n + 1) (.one k) lx ctx W).1 = .err ⟨[], .unexp es ts exp found⟩) :
+    Unexp lx s es ts found ∧ exp = .token k ∧ ∀ t, found = .token t → (t.kind == k) = false :=
+  one_unexpected ok hp a n k ctx W h
+
+theorem C13_any_unexpected (ok : ScanOK R.E m len) (hp : PassOK R.E) {lx : Lx} {s : PState}
+    (a : Abs R.E m len lx s) (n : Nat) (ks : List Nat) (ctx : Ctx) (W : World) {es ts : Span} {exp : Expected}
+    {found : Found} (h : (run R (n + 1) (.any ks) lx ctx W).1 = .err ⟨[], .unexp es ts exp found⟩) :
+    Unexp lx s es ts found ∧ exp = .tokens ks ∧ ∀ t, found = .token t → ks.find? (· == t.kind) = none :=
+  any_unexpected ok hp a n ks ctx W h
+
+theorem C13_anyIndex_unexpected (ok : ScanOK R.E m len) (hp : PassOK R.E) {lx : Lx} {s : PState}
+    (a : Abs R.E m len lx s) (n : Nat) (ks : List Nat) (ctx : Ctx) (W : World) {es ts : Span} {exp : Expected}
+    {found : Found} (h : (run R (n + 1) (.anyIndex ks) lx ctx W).1 = .err ⟨[], .unexp es ts exp found⟩) :
+    Unexp lx s es ts found ∧ exp = .tokens ks ∧ ∀ t, found = .token t → position ks t.kind = none :=
+  anyIndex_unexpected ok hp a n ks ctx W h
+
+theorem C13_seq_unexpected (ok : ScanOK R.E m len) (hp : PassOK R.E) {lx : Lx} {s : PState}
+    (a : Abs R.E m len lx s) (n : Nat) (ks : List Nat) (ctx : Ctx) (W : World) {es ts : Span} {exp : Expected}
+    {found : Found} (h : (run R (n + 1) (.seq ks) lx ctx W).1 = .err ⟨[], .unexp es ts exp found⟩) :
+    Unexp lx (seqStop ks s).2 es ts found ∧ ∃ k' rest, (seqStop ks s).1 = k' :: rest ∧ exp = .token k' ∧
+      ∀ t, found = .token t → (t.kind == k') = false :=
+  seq_unexpected ok hp a n ks ctx W h
+
+theorem C13_pred_unexpected (ok : ScanOK R.E m len) (hp : PassOK R.E) {lx : Lx} {s : PState}
+    (a : Abs R.E m len lx s) (n : Nat) (p : PE) (ctx : Ctx) (W : World) {es ts : Span} {exp : Expected}
+    {found : Found} (h : (run R (n + 1) (.pred p) lx ctx W).1 = .err ⟨[], .unexp es ts exp found⟩) :
+    Unexp lx s es ts found ∧ exp = .other ∧ ∀ t, found = .token t → p.eval t = false :=
+  pred_unexpected ok hp a n p ctx W h
+
+theorem C13_endOfText_unexpected (ok : ScanOK R.E m len) (hp : PassOK R.E) {lx : Lx} {s : PState}
+    (a : Abs R.E m len lx s) (n : Nat) (ctx : Ctx) (W : World) {es ts : Span} {exp : Expected}
+    {found : Found} (h : (run R (n + 1) .endOfText lx ctx W).1 = .err ⟨[], .unexp es ts exp found⟩) :
+    Unexp lx s es ts found ∧ exp = .eot ∧ ∃ t, found = .token t :=
+  endOfText_unexpected ok hp a n ctx W h
+
+/-- All six leaves at once (`leafStop g s = s` except `leafStop (seq ks) s = (seqStop ks s).2`). -/
+theorem C13_leaf_unexpected (ok : ScanOK R.E m len) (hp : PassOK R.E) {lx : Lx} {s : PState}
+    (a : Abs R.E m len lx s) (n : Nat) (g : G) (hg : isLeaf g = true) (ctx : Ctx) (W : World) {es ts : Span}
+    {exp : Expected} {found : Found}
+    (h : (run R (n + 1) g lx ctx W).1 = .err ⟨[], .unexp es ts exp found⟩) :
+    Unexp lx (leafStop g s) es ts found :=
+  leaf_unexpected ok hp a n g hg ctx W h
+
+/-! ### non-vacuity: a one-token text -/
+
+/-- a scanner for a one-byte text: one token of kind 0 at position zero -/
+def oneScan : Nat → Metrics → Pos → Option (Tok × Pos) × Nat := fun s _ p =>
+  if p.byte = 0 then (some (⟨0, 0⟩, ⟨1, 0, 1⟩), s) else (none, s)
+
+def oneEnv : RunEnv := ⟨⟨oneScan, passesMask⟩, []⟩
+
+def oneP (p : Pos) : Prop := p = Pos.zero ∨ p = ⟨1, 0, 1⟩
+
+theorem oneP_closed (m : Metrics) : Closed oneEnv.E oneP m := by
+  intro s p tok adv s' _ h
+  simp only [oneEnv, oneScan] at h
+  split at h
+  · cases h; exact Or.inr rfl
+  · cases h
+
+theorem oneScan_ok (m : Metrics) : ScanOK oneEnv.E m 1 := by
+  constructor
+  · intro s p tok adv s' h
+    simp only [oneEnv, oneScan] at h
+    split at h
+    · cases h; simp_all
+    · cases h
+  · intro s p h
+    simp only [oneEnv, oneScan]
+    rw [if_neg (by omega)]
+
+/-- `one 1` on the text whose only token has kind 0 fails with an
+`UnexpectedToken` whose spans are the parse span before the call and the span of
+the offending token. -/
+theorem one_fails (m : Metrics) (ctx : Ctx) (W : World) :
+    (run oneEnv 1 (.one 1) (Lexer.new 0 m 1) ctx W).1 =
+      .err ⟨[], .unexp ⟨Pos.zero, Pos.zero⟩ ⟨Pos.zero, ⟨1, 0, 1⟩⟩ (.token 1) (.token ⟨0, 0⟩)⟩ := by
+  simp only [run, Lexer.next, Lexer.new]
+  rw [Lexer.nextLoop]
+  simp [oneEnv, oneScan, Lexer.filtered, Pos.zero, Lexer.parseSpan, Lexer.tokenSpan, Span.enclosing, mkErr]
+
+/-- Non-vacuity of `C13_spans_from_lexer` / `C13_spans_from_new`: the hypotheses
+hold and the run produces an error with two non-trivial spans. -/
+example : oneP Pos.zero ∧ Closed oneEnv.E oneP (⟨.lf, 4⟩ : Metrics) ∧
+    ∃ e, (run oneEnv 1 (.one 1) (Lexer.new 0 ⟨.lf, 4⟩ 1) ⟨false, [], false⟩ World.init).1 = .err e :=
+  ⟨Or.inl rfl, oneP_closed _, _, one_fails _ _ _⟩
+
+/-- Non-vacuity of `C13_start_le_end`: same run. -/
+example : (∀ e ∈ World.init.log, ErrWF e.body) ∧
+    ∃ e, (run oneEnv 1 (.one 1) (Lexer.new 0 ⟨.lf, 4⟩ 1) ⟨false, [], false⟩ World.init).1 = .err e :=
+  ⟨by simp [World.init], _, one_fails _ _ _⟩
+
+/-- Non-vacuity of the leaf clauses: a related lexer/state pair on which `one 1`
+fails with `UnexpectedToken`, `found = Token`. -/
+example : ∃ (lx : Lx) (s : PState), ScanOK oneEnv.E (⟨.lf, 4⟩ : Metrics) 1 ∧ PassOK oneEnv.E ∧
+    Abs oneEnv.E ⟨.lf, 4⟩ 1 lx s ∧
+    (run oneEnv 1 (.one 1) lx ⟨false, [], false⟩ World.init).1 =
+      .err ⟨[], .unexp ⟨Pos.zero, Pos.zero⟩ ⟨Pos.zero, ⟨1, 0, 1⟩⟩ (.token 1) (.token ⟨0, 0⟩)⟩ :=
+  ⟨_, _, oneScan_ok _, fun _ _ => rfl, abs_new 0 (fun _ _ => rfl), one_fails _ _ _⟩
 
 end Tephra.Props
